@@ -97,7 +97,7 @@ package memory
 //@ func (*Type).LookUpGlobal [C18] pure
 //@   requires m != nil
 //@   ensures[bound]   mapdom(m.global, name) ==> result == m.global[name]
-//@   ensures[unbound] !mapdom(m.global, name) ==> result.IsNil()
+//@   ensures[unbound] !mapdom(m.global, name) ==> result.IsNil() && result == value.Nil
 //
 //@ func (*Type).SetGlobal [C18]
 //@   requires m != nil && m.global != nil
